@@ -222,7 +222,7 @@ def strip_pp(src):
         if all(stack): out.append(line)
     return '\n'.join(out)
 
-def routines(cfile):
+def routines(cfile, tolerant=False):
     src = strip_pp(open(os.path.join(REPO, 'src', 'C', cfile)).read())
     errs = err_classes()
     res = []
@@ -248,6 +248,7 @@ def routines(cfile):
             for part in decl.split(','):
                 if '=' in part:
                     k, v = part.split('='); v = v.strip()
+                    if k.strip().startswith('*'): continue           # int *ipivc = NULL: a work-space pointer, not an argument
                     ints[k.strip()] = ord(v[1]) if v.startswith("'") else int(v)
                 else: ints[part.strip()] = 0
         chars = {}
@@ -265,12 +266,27 @@ def routines(cfile):
         swm = re.match(r'switch \(\s*MAT_ID\((\w+)\)', body[end:]) if end >= 0 else None
         if end < 0: raise Untranslatable('%s: no switch after the checks' % name)
         prefix = body[j:end]
-        prefix = re.sub(r'\b(\w+)\s*=\s*\(char\)\s*\w+_\s*;', '', prefix)      # trans = (char) trans_;
+        prefix = re.sub(r'\b(\w+)\s*=\s*(?:\(char\)\s*)?\1_\s*;', '', prefix)      # trans = (char) trans_;  /  trans = trans_;
         toks = lex(prefix)
         p = P(toks, errs)
-        stmts = []
-        while p.peek()[0] != 'eof': stmts += p.stmt()
-        res.append({'name': name, 'mats': matnames, 'ints': ints, 'chars': chars, 'kwlist': kwlist, 'stmts': fix_seterr(stmts), 'switch': swm.group(1) if swm else None, 'nreq': nreq})
+        stmts = []; cut = None
+        while p.peek()[0] != 'eof':
+            start = p.i
+            if tolerant and toks[start][0] == 'id' and toks[start][1] in ('int', 'double', 'void', 'complex'):
+                # `int *ipiv_ptr = malloc(n*sizeof(int));` - a work-space declaration closes the prefix
+                j2 = start
+                while j2 < len(toks) and toks[j2] != ('op', ';'): j2 += 1
+                if any(t == ('id', 'malloc') or t == ('id', 'calloc') for t in toks[start:j2]):
+                    cut = ' '.join(str(t[1]) for t in toks[start:start + 12]); break
+            try: stmts += p.stmt()
+            except Untranslatable:
+                # the checks end where the work space is set up: a statement outside the grammar that allocates or copies
+                # (`if (!(w = calloc(..))) return PyErr_NoMemory();`, `for (..) ipiv_int[k] = ..`) closes the prefix
+                rest = [t[1] for t in toks[start:] if t[0] == 'id']
+                if tolerant and any(x in ('malloc', 'calloc', 'for', 'memcpy') for x in rest[:40]):
+                    cut = ' '.join(str(t[1]) for t in toks[start:start + 12]); break
+                raise
+        res.append({'name': name, 'mats': matnames, 'ints': ints, 'chars': chars, 'kwlist': kwlist, 'stmts': fix_seterr(stmts), 'switch': swm.group(1) if swm else None, 'nreq': nreq, 'cut': cut})
     return res
 
 # ------------------------------------------------------------------------------------------------ Lean emission
@@ -338,7 +354,7 @@ class Emit:
         if s[0] == 'seterr': return self.go(rest, env, ind)
         if s[0] == 'assign':
             nv = self.fresh(s[1])
-            e = lean_int(s[2], env)
+            e = lean_int(s[2], E)
             body, pr = self.go(rest, dict(env, **{s[1]: nv}), ind)
             return ('(withVal %s fun %s =>\n  %s)' % (e, nv, body),
                     [pad + 'rw [withVal_beta] at h', pad + 'generalize h%s : %s = %s at h' % (nv, e, nv), pad + 'try dsimp only at h'] + pr)
@@ -355,8 +371,8 @@ class Emit:
                 text_pre, proof_pre, env2 = '', [], dict(env)
                 for v in names:
                     a = [x for x in s[2] if x[1] == v]; b = [x for x in s[3] if x[1] == v]
-                    ea = lean_int(a[0][2], env) if a else env.get(v, v)
-                    eb = lean_int(b[0][2], env) if b else env.get(v, v)
+                    ea = lean_int(a[0][2], E) if a else env.get(v, v)
+                    eb = lean_int(b[0][2], E) if b else env.get(v, v)
                     nv = self.fresh(v)
                     e = '(if %s then %s else %s)' % (c, ea, eb)
                     text_pre += '(withVal %s fun %s =>\n  ' % (e, nv)
@@ -380,19 +396,20 @@ class Emit:
                     [pad + 'by_cases %s : %s' % (nm, c), pad + '· rw [if_pos %s] at h' % nm] + p1 + [pad + '· rw [if_neg %s] at h' % nm] + p2)
         raise Untranslatable('statement %s' % (s,))
 
-def gen_blas():
-    rs = routines('blas.c')
-    out = ['/- GENERATED by tools/translate/cwrap2lean.py from /repo/src/C/blas.c. Do not edit. -/',
+def gen_wrap(cfile, ns, modname, pyname, tolerant=False):
+    """Gen/<modname>.lean: the argument checks of every wrapper of src/C/<cfile> as pure Lean functions (namespace CvxVerif.Gen.<ns>)"""
+    rs = routines(cfile, tolerant=tolerant)
+    out = ['/- GENERATED by tools/translate/cwrap2lean.py from /repo/src/C/%s. Do not edit. -/' % cfile,
            'import CvxVerif.Model.CWrap', 'set_option linter.unusedVariables false', 'set_option maxRecDepth 4000',
-           'namespace CvxVerif.Gen.Blas', 'open CvxVerif.CWrap', '']
+           'namespace CvxVerif.Gen.%s' % ns, 'open CvxVerif.CWrap', '']
     table = []
     for r in rs:
         acc = collect(r['stmts'], {'vars': set(), 'fields': set(), 'opaque': set(), 'assigned': set()})
-        ptrs = sorted(v for v in acc['vars'] if v in r['mats'] and v not in [f[0] for f in acc['fields']] or v in ('ao', 'bo'))
+        ptrs = sorted(v for v in acc['vars'] if v in r['mats'])
         params = []
         for (mname, f) in sorted(acc['fields']):
             params.append('(%s_%s : %s)' % (mname, f, 'Bool' if f in ('isMat', 'isSp') else 'Int'))
-        ivars = sorted(v for v in acc['vars'] | acc['assigned'] if v not in r['mats'] and v not in ('ao', 'bo'))
+        ivars = sorted(v for v in acc['vars'] | acc['assigned'] if v not in r['mats'])
         for v in ivars: params.append('(%s : Int)' % v)
         for v in ptrs: params.append('(%s_given : Bool)' % v)
         for o in sorted(acc['opaque']): params.append('(opq_%s : Bool)' % o)
@@ -400,52 +417,63 @@ def gen_blas():
         em = Emit(final_vars, ptrs)
         body, proof = em.go(r['stmts'], {}, 1)
         r['proof'] = proof
-        out.append('/-- argument checks of `blas.%s` (ideal integer arithmetic) -/' % r['name'])
+        out.append('/-- argument checks of `%s.%s` (ideal integer arithmetic) -/' % (pyname, r['name']))
         out.append('def %s %s : Outcome :=\n  %s\n' % (r['name'], ' '.join(params), body))
         out.append('def %s_callNames : List String := [%s]\n' % (r['name'], ', '.join('"%s"' % v for v in final_vars)))
         r['params'] = params
         table.append(r)
-    out.append('end CvxVerif.Gen.Blas\n')
+    out.append('end CvxVerif.Gen.%s\n' % ns)
     os.makedirs(GEN, exist_ok=True)
-    p = os.path.join(GEN, 'BlasWrap.lean')
+    p = os.path.join(GEN, modname + '.lean')
     txt = '\n'.join(out)
     if not os.path.exists(p) or open(p).read() != txt: open(p, 'w').write(txt)
     return table
+
+def gen_blas(): return gen_wrap('blas.c', 'Blas', 'BlasWrap', 'blas')
+def gen_lapack(): return gen_wrap('lapack.c', 'Lapack', 'LapackWrap', 'lapack', tolerant=True)
 
 def FLAGVAR(fl): return fl
 
 def gen_blas_safety(table=None):
     """Gen/C19Safe.lean: one theorem per routine, `accept -> footprint inside the buffers`, statements from footprints.py"""
     import footprints
-    table = table or gen_blas()
-    out = ['/- GENERATED by tools/translate/cwrap2lean.py (gen_blas_safety): theorem statements from tools/translate/footprints.py (hand-written',
-           '   specification of what each BLAS routine touches) about the generated argument checks of Gen/BlasWrap.lean. -/',
-           'import CvxVerif.Gen.BlasWrap', 'set_option linter.unusedVariables false', 'set_option maxRecDepth 8000',
-           'namespace CvxVerif.C19', 'open CvxVerif.CWrap CvxVerif.Gen.Blas', '']
+    return gen_safety(table or gen_blas(), footprints.FOOT, 'blas', 'Blas', 'BlasWrap', 'footprints.py', 'BLAS', 'C19_safe_', 'C19Safe', '')
+
+def gen_lapack_safety(table=None):
+    """Gen/C19SafeL.lean: the same for the wrappers of lapack.c, statements from footprints_lapack.py"""
+    import footprints_lapack
+    return gen_safety(table or gen_lapack(), footprints_lapack.FOOT, 'lapack', 'Lapack', 'LapackWrap', 'footprints_lapack.py', 'LAPACK',
+                      'C19_safe_lapack_', 'C19SafeL', 'L')
+
+def gen_safety(table, FOOT, pyname, ns, wrapmod, footfile, LIB, thmprefix, idxmod, suffix):
+    out = ['/- GENERATED by tools/translate/cwrap2lean.py (gen_%s_safety): theorem statements from tools/translate/%s (hand-written' % (pyname, footfile),
+           '   specification of what each %s routine touches) about the generated argument checks of Gen/%s.lean. -/' % (LIB, wrapmod),
+           'import CvxVerif.Gen.%s' % wrapmod, 'set_option linter.unusedVariables false', 'set_option maxRecDepth 8000',
+           'namespace CvxVerif.C19', 'open CvxVerif.CWrap CvxVerif.Gen CvxVerif.Gen.%s' % ns, '']
     unproved = []
     for r in table:
         name = r['name']
-        if name not in footprints.FOOT: unproved.append(name); continue
+        if name not in FOOT: unproved.append(name); continue
         import re as _re
         pnames = [_re.match(r'\((\w+) :', p).group(1) for p in r['params']]
         ivars = [v for v in pnames if ('(%s : Int)' % v) in r['params'] and not _re.search(r'_(id|len|nrows|ncols)$', v)]
         primed = ' '.join(v + "'" for v in ivars)
-        stmt = ' ∧\n    '.join('(%s)' % f for f in footprints.FOOT[name])
-        out.append('/-- **Memory safety of `blas.%s` in ideal arithmetic.** Whenever the argument checks let the call through, every element the' % name)
-        out.append('BLAS routine addresses lies inside the Python buffers, for all integer arguments and all buffer sizes. -/')
-        out.append('theorem C19_safe_%s %s (%s : Int)' % (name, ' '.join(r['params']), primed))
-        out.append('    (h : %s %s = .call [%s])' % (name, ' '.join(pnames), ', '.join(v + "'" for v in ivars)))
+        stmt = ' ∧\n    '.join('(%s)' % f for f in FOOT[name])
+        out.append('/-- **Memory safety of `%s.%s` in ideal arithmetic.** Whenever the argument checks let the call through, every element the' % (pyname, name))
+        out.append('%s routine addresses lies inside the Python buffers, for all integer arguments and all buffer sizes. -/' % LIB)
+        out.append('theorem %s%s %s (%s : Int)' % (thmprefix, name, ' '.join(r['params']), primed))
+        out.append('    (h : %s.%s %s = .call [%s])' % (ns, name, ' '.join(pnames), ', '.join(v + "'" for v in ivars)))
         sw = r.get('switch')
         if sw and ('(%s_id : Int)' % sw) in r['params']:
             out.append("    -- the `switch (MAT_ID(%s))` that follows the checks rejects every typecode other than 'd' (1) and 'z' (2)" % sw)
             out.append('    (hsw : %s_id = 1 ∨ %s_id = 2) :' % (sw, sw))
         else: out[-1] += ' :'
         out.append('    %s := by' % stmt)
-        out.append('  unfold %s at h' % name)
+        out.append('  unfold %s.%s at h' % (ns, name))
         flags = sorted(set(_re.findall(r"if (\w+)' = (\d+)", stmt)))
         final = ['simp only [Outcome.call.injEq, List.cons.injEq, and_true] at h',
                  'obtain ⟨%s⟩ := h' % ', '.join('rfl' for _ in ivars) if len(ivars) > 1 else 'subst h',
-                 'simp only [VecFits, MatFits]']
+                 'simp only [VecFits, MatFits, SegFits]']
         incs = sorted(set(_re.findall(r"VecFits \w+ \w+' \(.*?\) (\w+)'", stmt)))
         for v in incs:
             final.append('have hi_%s := iabs_cases %s' % (v, v))
@@ -462,32 +490,32 @@ def gen_blas_safety(table=None):
     blocks, cur = [], []
     for l in body:
         cur.append(l)
-        if l == '' and cur and any(x.startswith('theorem C19_safe_') for x in cur):
+        if l == '' and cur and any(x.startswith('theorem ' + thmprefix) for x in cur):
             blocks.append(cur); cur = []
     names = []
     for blk in blocks:
-        nm = [x for x in blk if x.startswith('theorem C19_safe_')][0].split(' ')[1][len('C19_safe_'):]
+        nm = [x for x in blk if x.startswith('theorem ' + thmprefix)][0].split(' ')[1][len(thmprefix):]
         names.append(nm)
         txt = '\n'.join(header + blk + ['end CvxVerif.C19', ''])
-        p = os.path.join(GEN, 'C19Safe_%s.lean' % nm)
+        p = os.path.join(GEN, '%s_%s.lean' % (idxmod, nm))
         if not os.path.exists(p) or open(p).read() != txt: open(p, 'w').write(txt)
-    idx = ['/- GENERATED index of the per-routine safety theorems -/'] + ['import CvxVerif.Gen.C19Safe_%s' % n for n in names] + [
+    idx = ['/- GENERATED index of the per-routine safety theorems -/'] + ['import CvxVerif.Gen.%s_%s' % (idxmod, n) for n in names] + [
            'namespace CvxVerif.C19',
-           '/-- routines of blas.c without a safety theorem (none expected) -/',
-           'def unproved : List String := [%s]' % ', '.join('"%s"' % u for u in unproved),
-           'def proved : List String := [%s]' % ', '.join('"%s"' % u for u in names),
-           'theorem C19_all_blas_routines_covered : unproved = [] ∧ proved.length = %d := by decide' % len(names),
+           '/-- routines of %s.c without a safety theorem (none expected) -/' % pyname,
+           'def unproved%s : List String := [%s]' % (suffix, ', '.join('"%s"' % u for u in unproved)),
+           'def proved%s : List String := [%s]' % (suffix, ', '.join('"%s"' % u for u in names)),
+           'theorem C19_all_%s_routines_covered : unproved%s = [] ∧ proved%s.length = %d := by decide' % (pyname, suffix, suffix, len(names)),
            'end CvxVerif.C19', '']
-    p = os.path.join(GEN, 'C19Safe.lean')
+    p = os.path.join(GEN, idxmod + '.lean')
     txt = '\n'.join(idx)
     if not os.path.exists(p) or open(p).read() != txt: open(p, 'w').write(txt)
     return table
 
-def gen_blas_driver(table):
-    """Gen/BlasDriver.lean: dispatch by routine name for the correspondence driver"""
-    out = ['/- GENERATED by tools/translate/cwrap2lean.py: dispatch table for Drivers/C19.lean -/', 'import CvxVerif.Gen.BlasWrap',
-           'namespace CvxVerif.Gen.Blas', 'open CvxVerif.CWrap', '',
-           'def runBlas (name : String) (kv : String → Int) (kb : String → Bool) : Option Outcome :=']
+def gen_driver(table, ns, wrapmod, drvmod, fn, cn, drvfile):
+    """Gen/<drvmod>.lean: dispatch by routine name for the correspondence driver"""
+    out = ['/- GENERATED by tools/translate/cwrap2lean.py: dispatch table for Drivers/%s.lean -/' % drvfile, 'import CvxVerif.Gen.%s' % wrapmod,
+           'namespace CvxVerif.Gen.%s' % ns, 'open CvxVerif.CWrap', '',
+           'def %s (name : String) (kv : String → Int) (kb : String → Bool) : Option Outcome :=' % fn]
     for r in table:
         args = []
         for prm in r['params']:
@@ -496,13 +524,16 @@ def gen_blas_driver(table):
         out.append('  if name == "%s" then some (%s %s) else' % (r['name'], r['name'], ' '.join(args)))
     out.append('  none')
     out.append('')
-    out.append('def callNames (name : String) : List String :=')
+    out.append('def %s (name : String) : List String :=' % cn)
     for r in table:
         out.append('  if name == "%s" then %s_callNames else' % (r['name'], r['name']))
     out.append('  []')
-    out.append('end CvxVerif.Gen.Blas\n')
-    p = os.path.join(GEN, 'BlasDriver.lean'); txt = '\n'.join(out)
+    out.append('end CvxVerif.Gen.%s\n' % ns)
+    p = os.path.join(GEN, drvmod + '.lean'); txt = '\n'.join(out)
     if not os.path.exists(p) or open(p).read() != txt: open(p, 'w').write(txt)
+
+def gen_blas_driver(table): gen_driver(table, 'Blas', 'BlasWrap', 'BlasDriver', 'runBlas', 'callNames', 'C19')
+def gen_lapack_driver(table): gen_driver(table, 'Lapack', 'LapackWrap', 'LapackDriver', 'runLapack', 'callNamesL', 'C19L')
 
 # ------------------------------------------------------------------------------------------------ evaluation (Python side)
 def wrap32(x):
@@ -566,4 +597,6 @@ if __name__ == '__main__':
     sys.path.insert(0, HERE)
     t = gen_blas_safety()
     gen_blas_driver(t)
-    print('generated', len(t), 'routines')
+    tl = gen_lapack_safety()
+    gen_lapack_driver(tl)
+    print('generated', len(t), '+', len(tl), 'routines')
